@@ -104,9 +104,14 @@ func c08Diff(a, b []string) string {
 	return ""
 }
 
+// c08TB is what the harness needs from *rapid.T / *testing.T.
+type c08TB interface {
+	Fatalf(format string, args ...any)
+}
+
 // implReader reads through the public TrieState API.
 type c08Impl struct {
-	t  *rapid.T
+	t  c08TB
 	ts *TrieState
 }
 
@@ -239,7 +244,7 @@ func c08LimitArg(limit int) *[]byte {
 // applyImpl runs one op on the TrieState. childEmpty tells whether the child
 // addressed by the op has no keys (then "child trie does not exist" errors are
 // what the contract allows; Substrate treats the call as a no-op).
-func c08ApplyImpl(t *rapid.T, ts *TrieState, o c08Op, childEmpty bool) {
+func c08ApplyImpl(t c08TB, ts *TrieState, o c08Op, childEmpty bool) {
 	var err error
 	switch o.kind {
 	case "put":
@@ -316,6 +321,14 @@ func c08GenValue(t *rapid.T) []byte {
 	return c08Values[rapid.SampledFrom([]int{0, 0, 1, 1, 2, 2, 3, 4, 5}).Draw(t, "v")]
 }
 
+// c08GenChildValue tags the value with the child name, so that two child tries
+// never have identical content: pkg/trie/inmemory keys its child tries by root
+// hash and aliases children with equal content (a C04 matter, not a defect of
+// the transaction layer).
+func c08GenChildValue(t *rapid.T, c string) []byte {
+	return append(append([]byte{}, c08GenValue(t)...), []byte(c)...)
+}
+
 // c08InitState draws the initial (committed) state.
 func c08InitState(t *rapid.T) (kit.OrdMap, map[string]kit.OrdMap) {
 	main := kit.OrdMap{}
@@ -327,14 +340,14 @@ func c08InitState(t *rapid.T) (kit.OrdMap, map[string]kit.OrdMap) {
 		c := rapid.SampledFrom(c08Names).Draw(t, "cn")
 		cm := kit.OrdMap{}
 		for j, nk := 0, rapid.IntRange(1, 3).Draw(t, "nck"); j < nk; j++ {
-			cm[rapid.SampledFrom(c08Keys).Draw(t, "ck")] = c08GenValue(t)
+			cm[rapid.SampledFrom(c08Keys).Draw(t, "ck")] = c08GenChildValue(t, c)
 		}
 		children[c] = cm
 	}
 	return main, children
 }
 
-func c08BuildTrie(t *rapid.T, main kit.OrdMap, children map[string]kit.OrdMap, v1 bool) *inmemory.InMemoryTrie {
+func c08BuildTrie(t c08TB, main kit.OrdMap, children map[string]kit.OrdMap, v1 bool) *inmemory.InMemoryTrie {
 	tr := inmemory.NewEmptyTrie()
 	if v1 {
 		tr.SetVersion(trie.V1)
@@ -374,7 +387,7 @@ func c08DescribeInit(main kit.OrdMap, children map[string]kit.OrdMap) string {
 }
 
 // c08CheckFinal compares the committed trie with the committed model state.
-func c08CheckFinal(t *rapid.T, tr trie.Trie, m *c08Model, v1 bool, who string) {
+func c08CheckFinal(t c08TB, tr trie.Trie, m *c08Model, v1 bool, who string) {
 	want := kit.OrdMap{}
 	for k, v := range m.bMain {
 		want[k] = v
@@ -432,7 +445,8 @@ const (
 )
 
 type c08Run struct {
-	t        *rapid.T
+	t        c08TB
+	rt       *rapid.T
 	ts       *TrieState
 	m        *c08Model
 	labels   map[string]bool
@@ -573,7 +587,7 @@ func (r *c08Run) step(i int, o c08Op) {
 }
 
 func (r *c08Run) genOp() c08Op {
-	t := r.t
+	t := r.rt
 	depth := r.m.depth()
 	kinds := []string{"put", "put", "put", "del", "del", "clr", "clr", "clrl", "clrl",
 		"cput", "cput", "cput", "cdel", "cclr", "cclrl", "kill", "killl", "killl", "start", "start", "start"}
@@ -596,7 +610,7 @@ func (r *c08Run) genOp() c08Op {
 	case "cput":
 		o.c = rapid.SampledFrom(c08Names).Draw(t, "c")
 		o.k = rapid.SampledFrom(c08Keys).Draw(t, "k")
-		o.v = c08GenValue(t)
+		o.v = c08GenChildValue(t, o.c)
 	case "cdel":
 		o.c = rapid.SampledFrom(c08Names).Draw(t, "c")
 		o.k = rapid.SampledFrom(c08Keys).Draw(t, "k")
@@ -641,30 +655,68 @@ func (r *c08Run) steerLimit(o *c08Op) {
 	if kit.KnownOpen(c08FindLimit) {
 		// trigger class of the finding: limited clear inside a transaction
 		// where the overlay holds a value for a key with the prefix and the
-		// limit is <= the number of backend keys with the prefix that have
-		// no overlay value.
-		ovVal, backOnly := r.m.limitShape(o.kind == "clrl", o.c, o.k)
-		if ovVal > 0 && o.limit <= backOnly {
+		// limit does not exceed the number of backend keys with the prefix
+		// (with a larger limit both semantics remove everything; without
+		// overlay values both delete the first `limit` backend keys).
+		ovVal, backend := r.m.limitShape(o.kind == "clrl", o.c, o.k)
+		if ovVal > 0 && o.limit <= backend {
 			kit.Excluded(c08FindLimit)
-			o.limit = backOnly + 1
+			o.limit = backend + 1
 		}
 	}
+}
+
+func c08NewRun(t c08TB, rt *rapid.T, v1 bool, main kit.OrdMap, children map[string]kit.OrdMap) *c08Run {
+	ts := NewTrieState(c08BuildTrie(t, main, children, v1))
+	r := &c08Run{t: t, rt: rt, ts: ts, m: newC08Model(main, children), labels: map[string]bool{}, logs: [][]c08Op{nil}, killed: map[string]bool{}}
+	fmt.Fprintf(&r.descr, "v1=%v %s |", v1, c08DescribeInit(main, children))
+	if v1 {
+		r.labels["v1"] = true
+	}
+	// the initial reads agree (validates the harness and the pre-population)
+	if d := c08Diff(c08Dump(c08Impl{t, ts}), c08Dump(r.m)); d != "" {
+		t.Fatalf("initial reads: %s\n%s", d, r.descr.String())
+	}
+	return r
+}
+
+// finish: the committed trie equals the model (entries, child contents, spec
+// root) and equals a second TrieState that applied the surviving operations
+// directly, without transactions.
+func (r *c08Run) finish(v1 bool, main kit.OrdMap, children map[string]kit.OrdMap) {
+	t := r.t
+	c08CheckFinal(t, r.ts.Trie(), r.m, v1, "after final commit of ["+r.descr.String()+"]")
+	ts2 := NewTrieState(c08BuildTrie(t, main, children, v1))
+	m2 := newC08Model(main, children)
+	for _, o := range r.logs[0] {
+		c08ApplyImpl(t, ts2, o, o.c != "" && len(m2.childView(o.c)) == 0)
+		c08ApplyModel(m2, o)
+	}
+	c08CheckFinal(t, ts2.Trie(), r.m, v1, fmt.Sprintf("transaction-free replay %v of the surviving ops of [%s]", r.logs[0], r.descr.String()))
+	h1, _ := r.ts.Trie().Hash()
+	h2, _ := ts2.Trie().Hash()
+	if h1 != h2 {
+		t.Fatalf("root with transactions %s != root of direct application %s", h1, h2)
+	}
+}
+
+// c08Script runs a fixed op list through the same oracle (regressions).
+func c08Script(t c08TB, v1 bool, main kit.OrdMap, children map[string]kit.OrdMap, ops []c08Op) {
+	r := c08NewRun(t, nil, v1, main, children)
+	i := 0
+	for ; i < len(ops); i++ {
+		r.step(i, ops[i])
+	}
+	for ; r.m.depth() > 0; i++ {
+		r.step(i, c08Op{kind: "commit", limit: -1})
+	}
+	r.finish(v1, main, children)
 }
 
 func c08Property(t *rapid.T) {
 	v1 := rapid.Bool().Draw(t, "v1")
 	main, children := c08InitState(t)
-	ts := NewTrieState(c08BuildTrie(t, main, children, v1))
-	r := &c08Run{t: t, ts: ts, m: newC08Model(main, children), labels: map[string]bool{}, logs: [][]c08Op{nil}, killed: map[string]bool{}}
-	fmt.Fprintf(&r.descr, "v1=%v %s |", v1, c08DescribeInit(main, children))
-	if v1 {
-		r.labels["v1"] = true
-	}
-
-	// the initial reads agree (validates the harness and the pre-population)
-	if d := c08Diff(c08Dump(c08Impl{t, ts}), c08Dump(r.m)); d != "" {
-		t.Fatalf("initial reads: %s\n%s", d, r.descr.String())
-	}
+	r := c08NewRun(t, t, v1, main, children)
 	n := rapid.IntRange(1, 45).Draw(t, "n")
 	for i := 0; i < n; i++ {
 		r.step(i, r.genOp())
@@ -677,21 +729,7 @@ func c08Property(t *rapid.T) {
 		}
 		r.step(i, c08Op{kind: kind, limit: -1})
 	}
-	c08CheckFinal(t, ts.Trie(), r.m, v1, "after final commit of ["+r.descr.String()+"]")
-
-	// (b) the surviving operations applied directly, without transactions
-	ts2 := NewTrieState(c08BuildTrie(t, main, children, v1))
-	m2 := newC08Model(main, children)
-	for _, o := range r.logs[0] {
-		c08ApplyImpl(t, ts2, o, o.c != "" && len(m2.childView(o.c)) == 0)
-		c08ApplyModel(m2, o)
-	}
-	c08CheckFinal(t, ts2.Trie(), r.m, v1, fmt.Sprintf("transaction-free replay %v of the surviving ops of [%s]", r.logs[0], r.descr.String()))
-	h1, _ := ts.Trie().Hash()
-	h2, _ := ts2.Trie().Hash()
-	if h1 != h2 {
-		t.Fatalf("root with transactions %s != root of direct application %s", h1, h2)
-	}
+	r.finish(v1, main, children)
 
 	if len(r.m.bChild) > 0 {
 		r.labels["final-has-children"] = true
